@@ -13,26 +13,30 @@ func sortStrings(s []string) { sort.Strings(s) }
 // Swarm-varied generator configuration
 
 type GenCfg struct {
-	MaxDepth  int
-	MaxFields int
-	MaxElems  int
-	Kinds     []string // enabled node kinds
-	PReq      float64
-	PDef      float64
-	PCatch    float64
-	PTest     float64 // probability of each additional test
-	MaxTests  int
-	PCustomT  float64 // probability that a test is a custom (recording) one
-	PTags     float64
-	PPT       float64 // probability of a PostTransform on a node
-	PPTErr    float64 // probability that a PostTransform returns an error
-	PValid    float64 // probability that a leaf input satisfies its node
-	PAbsent   float64
-	PBadType  float64
-	Mode      string // parse | validate
-	Opts      bool   // test options (Message / IssuePath)
+	MaxDepth         int
+	MaxFields        int
+	MaxElems         int
+	Kinds            []string // enabled node kinds
+	PReq             float64
+	PDef             float64
+	PCatch           float64
+	PTest            float64 // probability of each additional test
+	MaxTests         int
+	PCustomT         float64 // probability that a test is a custom (recording) one
+	PTags            float64
+	PPT              float64 // probability of a PostTransform on a node
+	PPTErr           float64 // probability that a PostTransform returns an error
+	PValid           float64 // probability that a leaf input satisfies its node
+	PAbsent          float64
+	PBadType         float64
+	Mode             string // parse | validate
+	Opts             bool   // test options (Message / IssuePath)
 	NoCoerceVariants bool
-	StructTests float64
+	StructTests      float64
+	Coercers         bool // z.WithCoercer on some primitives
+	EmptyTags        bool // tag values may be the empty string (C06 only)
+	Widths           bool // Int64 / Float32 schemas (int64 / float32 destinations)
+	BigInts          bool // int64 values beyond 2^53 (only where every front end in play carries integers exactly)
 }
 
 var allKinds = []string{"string", "int", "float", "bool", "time", "struct", "slice", "ptr", "custom", "pre"}
@@ -46,20 +50,20 @@ func DrawGenCfg(r *Rng, mode string) GenCfg {
 		d, f, e = 4, 6, 4
 	}
 	c := GenCfg{
-		MaxDepth:  1 + r.Intn(d),
-		MaxFields: 1 + r.Intn(f),
-		MaxElems:  1 + r.Intn(e),
-		PReq:      Pick(r, []float64{0.2, 0.5, 0.8}),
-		PDef:      Pick(r, []float64{0, 0.15, 0.4}),
-		PCatch:    Pick(r, []float64{0, 0.15, 0.4}),
-		PTest:     Pick(r, []float64{0.3, 0.6, 0.8}),
-		MaxTests:  1 + r.Intn(3),
-		PCustomT:  Pick(r, []float64{0, 0.2, 0.5}),
-		PTags:     Pick(r, []float64{0, 0, 0.3, 0.7}),
-		PValid:    Pick(r, []float64{0.5, 0.8, 0.95}),
-		PAbsent:   Pick(r, []float64{0.05, 0.15, 0.3}),
-		PBadType:  Pick(r, []float64{0, 0.05, 0.15}),
-		Mode:      mode,
+		MaxDepth:    1 + r.Intn(d),
+		MaxFields:   1 + r.Intn(f),
+		MaxElems:    1 + r.Intn(e),
+		PReq:        Pick(r, []float64{0.2, 0.5, 0.8}),
+		PDef:        Pick(r, []float64{0, 0.15, 0.4}),
+		PCatch:      Pick(r, []float64{0, 0.15, 0.4}),
+		PTest:       Pick(r, []float64{0.3, 0.6, 0.8}),
+		MaxTests:    1 + r.Intn(3),
+		PCustomT:    Pick(r, []float64{0, 0.2, 0.5}),
+		PTags:       Pick(r, []float64{0, 0, 0.3, 0.7}),
+		PValid:      Pick(r, []float64{0.5, 0.8, 0.95}),
+		PAbsent:     Pick(r, []float64{0.05, 0.15, 0.3}),
+		PBadType:    Pick(r, []float64{0, 0.05, 0.15}),
+		Mode:        mode,
 		StructTests: Pick(r, []float64{0, 0.3, 0.6}),
 	}
 	// swarm: each kind enabled with probability 3/4, primitives never all off
@@ -108,7 +112,7 @@ func (c *GenCfg) without(ks ...string) {
 // ---------------------------------------------------------------------------
 // Value domains (small on purpose: collisions with test parameters are wanted)
 
-var strDomain = []string{"a", "ab", "abc", "abcd", "hello", "Hello1", "x!", "zzz", "abcdefgh", "Q", "7up", "a b", "12", "true", "é", "ab#"}
+var strDomain = []string{"a", "ab", "abc", "abcd", "hello", "Hello1", "x!", "zzz", "abcdefgh", "Q", "7up", "a b", "12", "true", "é", "ab#", "pa$$w0rd", "$HOME", "a${b}c", "50%"}
 var timeBase = "2024-01-10T00:00:00Z"
 
 func dayTime(k int) string {
@@ -126,7 +130,13 @@ func genTyped(r *Rng, kind string) Val {
 	case "bool":
 		return VB(r.P(0.5))
 	case "time":
-		return VT(dayTime(r.Intn(10) - 3))
+		t := dayTime(r.Intn(10) - 3)
+		if r.P(0.15) {
+			// the same instant written in another zone
+			tt := MustTime(t).In(time.FixedZone("x", Pick(r, []int{2, -5, 9})*3600))
+			t = tt.Format(time.RFC3339)
+		}
+		return VT(t)
 	}
 	return VNil()
 }
@@ -216,13 +226,26 @@ func genTests(r *Rng, c *GenCfg, n *Node) {
 				t = TestSpec{T: k, N: int64(r.Intn(4))}
 				if k == "contains" {
 					// time elements: "membership by deep equality" depends on the Location pointer, not the instant
-					if !n.Elem.IsPrim() || n.Elem.Kind == "time" {
+					if n.Elem.Kind == "slice" && n.Elem.Elem.IsPrim() && n.Elem.Elem.Kind != "time" {
+						// membership by deep equality also for elements that are lists themselves
+						inner := VL()
+						for k := 0; k < 1+r.Intn(2); k++ {
+							inner.L = append(inner.L, genTyped(r, n.Elem.Elem.Kind))
+						}
+						t.L = []Val{inner}
+					} else if !n.Elem.IsPrim() || n.Elem.Kind == "time" {
 						t.T = "min"
 					} else {
 						t.L = []Val{genTyped(r, n.Elem.Kind)}
 					}
 				}
 			}
+		}
+		if c.Opts && t.T != "custom" && r.P(0.12) {
+			// IssueCode on a built-in test (also after Not()): the code is a label, it must not change what the test checks
+			t.Code = Pick(r, []string{"custom_code", "not_allowed", "not_", "reserved"}) + strconv.Itoa(i)
+		} else if t.T == "custom" && !t.TFunc && r.P(0.1) {
+			t.Code = Pick(r, []string{"not_allowed", "not_c"}) + strconv.Itoa(i)
 		}
 		if c.Opts && r.P(0.2) {
 			t.Msg = "M" + strconv.Itoa(i)
@@ -235,6 +258,9 @@ func genTests(r *Rng, c *GenCfg, n *Node) {
 		}
 		if t.T == "custom" && (n.Kind == "string") && r.P(0.3) {
 			t.Reusable = true
+		}
+		if t.T == "custom" && (n.Kind == "string" || n.Kind == "int") && t.Msg == "" && !t.MsgFn && len(t.Params) == 0 && r.P(0.25) {
+			t.TFunc, t.Reusable = true, false
 		}
 		n.Tests = append(n.Tests, t)
 	}
@@ -339,6 +365,14 @@ func genKind(r *Rng, c *GenCfg, kind string, depth int) *Node {
 	n := &Node{Kind: kind}
 	switch kind {
 	case "string", "int", "float", "bool", "time":
+		if c.Widths && r.P(0.25) {
+			switch kind {
+			case "int":
+				n.W = "64"
+			case "float":
+				n.W = "32"
+			}
+		}
 		n.Req = r.P(c.PReq)
 		if r.P(c.PDef) {
 			v := genTyped(r, kind)
@@ -351,6 +385,11 @@ func genKind(r *Rng, c *GenCfg, kind string, depth int) *Node {
 		genReqOpt(r, c, n)
 		genTests(r, c, n)
 		genPTs(r, c, n)
+		if c.Coercers && r.P(0.12) {
+			n.Coercer = Pick(r, []string{"const", "const", "fail"})
+			v := genTyped(r, kind)
+			n.CoVal = &v
+		}
 	case "struct":
 		nf := 1 + r.Intn(c.MaxFields)
 		used := map[string]bool{}
@@ -367,6 +406,9 @@ func genKind(r *Rng, c *GenCfg, kind string, depth int) *Node {
 						tv := tn[:1] + "_" + key
 						if r.P(0.1) {
 							tv = Pick(r, []string{tn[:1] + "," + key, tn[:1] + " " + key, key + ",omitempty", tn[:1] + "-" + key, "é" + key})
+							if c.EmptyTags && r.P(0.3) {
+								tv = "" // names the field "": legal, but two such fields of one struct collide
+							}
 						}
 						f.Tags = append(f.Tags, KV{tn, VS(tv)})
 					}
@@ -447,6 +489,10 @@ func GenParseInput(r *Rng, c *GenCfg, n *Node) (v Val, missing bool) {
 			tv = genSatisfying(r, n)
 		} else {
 			tv = genTyped(r, n.Kind)
+		}
+		if c.BigInts && n.Kind == "int" && n.W == "64" && r.P(0.15) {
+			// not representable as a float64: an int64 must come through unchanged
+			return VI(Pick(r, []int64{9007199254740993, -9007199254740993, 9223372036854775807, 1152921504606846977})), false
 		}
 		if c.NoCoerceVariants {
 			return tv, false
@@ -645,6 +691,9 @@ func GenValidateInput(r *Rng, c *GenCfg, n *Node, full bool) Val {
 		}
 		if full && validateAbsent(n, MIn{V: v}) {
 			v = nonZeroTyped(r, n.Kind)
+		}
+		if c.BigInts && n.Kind == "int" && n.W == "64" && r.P(0.15) {
+			v = VI(Pick(r, []int64{9007199254740993, -9007199254740993, 9223372036854775807, 1152921504606846977}))
 		}
 		return v
 	case "custom":
